@@ -25,9 +25,11 @@
        Cartesian / spherical / mixed, with transform).  For the two-index functions it is proved for ONE pair of
        shells of any coordinate types (the four C13_generalized_is_segmented_assembled .._partial theorems: the
        processed block is the segment-major matrix of the tiles; overlap_integral_asymmetric([sa], [sb]) = the
-       same of the single-column shells, with transforms; any frame kernel); for several shells per basis (hcat /
-       vcat of the blocks), the symmetric assembly and the four-index assembly the statement is decided by the
-       correspondence search only.  At shell-block level (the input of the flattening) the law is
+       same of the single-column shells, with transforms; any frame kernel); for SEVERAL shells per basis and
+       the symmetric assembly it is proved for overlap_integral and kinetic_energy_integral in Props/C13_assembled.v
+       (C13_generalized_is_segmented_assembled_overlap: any basis, any coordinate types, with transform; a generic
+       reduction for the other symmetric two-index functions is there too); for the other two-index functions
+       and the four-index assembly the statement is decided by the correspondence search only.  At shell-block level (the input of the flattening) the law is
        proved for every kernel (the C13_generalized_is_segmented theorems).
      column_scale, ASSEMBLED: "for every public function, multiplying a column by k > 0 changes nothing and by
        k < 0 flips the sign of that function".  Proved assembled for overlap_integral(_asymmetric) and positive
